@@ -4,8 +4,8 @@ PROPS["C17"] = dict(
   jobs=[
     dict(name="c17", checks="none", **_c17_common,
          shards={"quick": op_shards([B_TET], [1], _SWAPS) + op_shards([B_LOWDIM], [1], [OP_SWAP_V, OP_SWAP_E])
-                        + _with(op_shards([B_TET], [1], _SWAPS), {4: OP_DEL_E, 5: 1}),
-                 "thorough": op_shards([B_TET2_FACE, B_TRI2, B_TET3_RING], [1], _SWAPS) + _with(op_shards([B_TET2_FACE], [1], _SWAPS), {4: OP_DEL_C, 5: 0})
+                        + _with([op_shards([B_TET], [1], [k])[0] for k in _SWAPS], {4: OP_DEL_E, 5: 1}),
+                 "thorough": _with(op_shards([B_TET], [1], _SWAPS), {4: OP_DEL_E, 5: 1}) + op_shards([B_TET2_FACE, B_TRI2, B_TET3_RING], [1], _SWAPS) + _with(op_shards([B_TET2_FACE], [1], _SWAPS), {4: OP_DEL_C, 5: 0})
                         + _with(op_shards([B_TET], [1], _SWAPS), {4: OP_DEL_V, 5: 3}) + op_shards([B_HEX], [1], [OP_SWAP_V, OP_SWAP_F])},
          bounds="every ordered pair (h1,h2) of vertex/edge/face/cell handles of the base (incl. equal, adjacent, sharing a face/cell, deleted-but-not-collected after a deferred deletion), symbolic selector 8 pairs per query; "
                 "relabeling oracle at symbolic probe indices; C01 cache oracle (level 0) after the swap; second swap restores the state incl. cache order; bases quick: tetrahedron, low-dimensional mesh"),
